@@ -737,7 +737,7 @@ def make_draw_contract(fam):
             bad = (not np.array_equal(a, b)) or a.shape != (2000,) or dk > 0.09
             return {"confirmed": bool(bad), "detail": f"{fam}: same-seed equal={np.array_equal(a, b)}, shape={a.shape}, KS distance to constructed cdf={dk:.4f} (DKW bound 0.09 at 1e-12)"}
     Draw.__name__ = f"Draw_{fam}"
-    return contract(D + fam + ".draw_sample", ["C07", "C08", "C19", "C11"], cases, name=f"draw_sample.{fam}")(Draw)
+    return contract(D + fam + ".draw_sample", ["C07", "C08", "C19", "C11", "C06", "C16"], cases, name=f"draw_sample.{fam}")(Draw)
 
 
 for _fam in ALL_FAMS:
